@@ -574,12 +574,82 @@ func fillStruct(r *vf.Rng, v reflect.Value, d int) {
 }
 
 // fill puts a random value into the settable v.
+// sweepMode, when set, makes fill produce WELL-FORMED values at chosen boundaries:
+// every small integer field (enum-like: versions, kinds, status, role, codes) takes
+// the value enum, every byte-string field the length blen, wider integers and big
+// integers one of 0 / 1 / max, lists are empty / single / several.
+type sweepMode struct {
+	enum uint64
+	blen int
+	wide int // 0: zero, 1: one, 2: max, 3: random
+	list int // 0: empty, 1: one element, 2: three, 3: random
+}
+
+var sweep *sweepMode
+
 func fill(r *vf.Rng, v reflect.Value, tg ftag, d int) {
 	t := v.Type()
 	k := t.Kind()
 	if c, ok := customs[t]; ok {
 		c.fill(r, v, d)
 		return
+	}
+	if sw := sweep; sw != nil {
+		switch {
+		case t.AssignableTo(bigPtrT) || t.AssignableTo(bigIntT):
+			x := new(big.Int)
+			switch sw.wide {
+			case 1:
+				x.SetUint64(1)
+			case 2:
+				x.Sub(new(big.Int).Lsh(big.NewInt(1), 256), big.NewInt(1))
+			case 3:
+				x = randBig(r)
+			}
+			if t.AssignableTo(bigPtrT) {
+				v.Set(reflect.ValueOf(x).Convert(t))
+			} else {
+				v.Set(reflect.ValueOf(*x).Convert(t))
+			}
+			return
+		case isUintKind(k):
+			max := ^uint64(0)
+			if t.Bits() < 64 {
+				max = (uint64(1) << uint(t.Bits())) - 1
+			}
+			if t.Bits() <= 16 {
+				v.SetUint(sw.enum & max)
+			} else {
+				v.SetUint([]uint64{0, 1, max, randUint(r, t.Bits())}[sw.wide])
+			}
+			return
+		case k == reflect.String:
+			v.SetString(string(r.Bytes(sw.blen)))
+			return
+		case k == reflect.Slice && isByteElem(t.Elem()):
+			v.Set(reflect.ValueOf(r.Bytes(sw.blen)).Convert(t))
+			return
+		case k == reflect.Slice:
+			n := []int{0, 1, 3, r.Intn(4)}[sw.list]
+			if d > 2 && n > 1 {
+				n = 1
+			}
+			sl := reflect.MakeSlice(t, n, n)
+			for i := 0; i < n; i++ {
+				fill(r, sl.Index(i), ftag{}, d+1)
+			}
+			v.Set(sl)
+			return
+		case k == reflect.Ptr:
+			if tg.nilOK && r.Chance(30) {
+				v.Set(reflect.Zero(t))
+				return
+			}
+			p := reflect.New(t.Elem())
+			fill(r, p.Elem(), ftag{}, d)
+			v.Set(p)
+			return
+		}
 	}
 	switch {
 	case t.AssignableTo(bigPtrT):
